@@ -10,7 +10,8 @@
    beforehand.  Invariants Inv_C17_Exact / NeverStuck / Woken / Blocking / Released.
    Topologies: solo (one task, one adapter, external peer), two (one adapter per socket end, as in the crate's tests),
    split (a reader task and a writer task on ONE adapter: futures' split(), Rc<RefCell>) and join (ONE task polling a
-   read and a write on one adapter).  Liveness under weak fairness of the loop thread (mc/asyncio_live*.cfg):
+   read and a write on one adapter), handoff (two tasks use one adapter one after the other: a pending operation is
+   ABANDONED -- the future is dropped -- and the other task waits for the same direction: the waker is replaced).  Liveness under weak fairness of the loop thread (mc/asyncio_live*.cfg):
    Live_C17_Woken, Live_C17_Settles.  The behaviour before commit 0061559 (one waker slot, one interest) is the variant
    single_waker: TLC reports Inv_C17_NeverStuck (split, join) and Live_C17_Settles (join) violated for it.
 2. Behaviours of the model are replayed on the REAL calloop::io::Async by harness/src/bin/drive_asyncio.rs (UnixStream
@@ -46,10 +47,13 @@ TOPOS = collections.OrderedDict([
     ("two", {"tasks": {"R": 2, "W": 1}, "join": 0}),
     ("split", {"tasks": {"R": 1, "W": 1}, "join": 0}),
     ("join", {"tasks": {"R": 1, "W": 1}, "join": 1}),
+    ("handoff", {"tasks": {"A": 1, "B": 1}, "join": 0}),
 ])
-KINDS = {"S": ("read", "write", "readable", "writable"), "R": ("read", "readable"), "W": ("write", "writable")}
+KINDS = {"S": ("read", "write", "readable", "writable"), "R": ("read", "readable"), "W": ("write", "writable"),
+         "A": ("read", "write", "readable", "writable"), "B": ("read", "write", "readable", "writable")}
 CLAUSE_INVS = ("Inv_C17_Exact", "Inv_C17_NeverStuck", "Inv_C17_Woken", "Inv_C17_Blocking", "Inv_C17_Released")
 VARIANT_CFGS = collections.OrderedDict([   # cfg -> invariant(s) TLC must report (with several workers any of them may come first)
+    ("asyncio_var_notreplaced", "Inv_C17_NeverStuck"),       # the stale waker of an abandoned wait is kept
     ("asyncio_var_dropfd", "Inv_C17_Released"),
     ("asyncio_var_adaptleak", ("Inv_C17_Released", "Inv_C17_Blocking")),
     ("asyncio_var_adaptleak_b", "Inv_C17_Blocking"),
@@ -65,7 +69,7 @@ VARIANT_CFGS = collections.OrderedDict([   # cfg -> invariant(s) TLC must report
 ])
 LIVE_CFGS = collections.OrderedDict([      # temporal checking (FairSpec): cfg -> property TLC must report violated (None: must hold)
     ("asyncio_live", None), ("asyncio_live_two", None), ("asyncio_live_split", None), ("asyncio_live_join", None),
-    ("asyncio_var_single_live", "Live_C17_Settles"), ("asyncio_var_consumed_live", "Live_C17_Settles")])
+    ("asyncio_live_handoff", None), ("asyncio_var_single_live", "Live_C17_Settles"), ("asyncio_var_consumed_live", "Live_C17_Settles")])
 
 
 # ------------------------------------------------------------------------------------------- scenarios
@@ -78,8 +82,8 @@ def scn_from_model(b, topo, sid):
             steps.append({"op": op, "e": s["e"]})
         elif op in ("drop", "into_inner"):
             steps.append({"op": op, "e": s["e"]})
-        elif op == "spawn":
-            steps.append({"op": "spawn", "t": s["t"]})
+        elif op in ("spawn", "abandon"):
+            steps.append({"op": op, "t": s["t"]})
         elif op == "peer":
             steps.append({"op": "peer", "k": s["k"], "n": s["n"]})
         else:
@@ -185,6 +189,8 @@ def random_scenarios(seed, n, topo, tag):
                 steps.append({"op": "spawn", "t": pending_spawn.pop()})
             elif x > 0.97:
                 steps.append({"op": "adapt2", "e": rnd.choice(ends), "if_live": 1})
+            elif x > 0.93 and not t["join"]:
+                steps.append({"op": "abandon", "t": rnd.choice(sorted(t["tasks"])), "if_parked": 1})
             elif x < 0.65 or not peer:
                 steps.append({"op": "dispatch"})
             elif x < 0.82:
@@ -214,6 +220,39 @@ def random_scenarios(seed, n, topo, tag):
         out.append({"id": "%s_%d" % (tag, i), "topo": topo, "join": t["join"], "seed": rnd.randint(1, 1 << 30),
                     "nb0": [rnd.randint(0, 1) for _ in range(3)], "tasks": tasks,
                     "streams": [[rnd.randint(0, 1) for _ in range(total + 8)] for _ in range(2)], "steps": steps})
+    return out
+
+
+def handoff_scenarios(seed, n, tag):
+    """a wait of task A is abandoned, then task B waits for the SAME direction of the adapter (the waker of the direction is
+    replaced), then the fd becomes ready; with noise around it"""
+    rnd = random.Random(seed * 7321 + 5)
+    out = []
+    for i in range(n):
+        x = rnd.choice("rw")
+        nd = lambda a, b: [{"op": "dispatch"}] * rnd.randint(a, b)
+        if x == "r":
+            first = rnd.choice((["readable", 0], ["read", rnd.randint(1, 3)]))
+            a_ops = [first] + rnd.choice(([], [["writable", 0]], [["write", 1]]))
+            b_ops = [rnd.choice((["readable", 0], ["read", rnd.randint(1, 3)]))] + rnd.choice(([], [["read", 1]], [["write", 1]], [["readable", 0]]))
+            ready = [{"op": "peer", "k": "w", "n": rnd.randint(1, 2)}]
+            pre = []
+        else:
+            a_ops = [["write", rnd.randint(2, 3)], rnd.choice((["writable", 0], ["write", rnd.randint(1, 2)]))] + rnd.choice(([], [["readable", 0]]))
+            b_ops = [rnd.choice((["writable", 0], ["write", 1]))] + rnd.choice(([], [["write", 1]], [["readable", 0]]))
+            if b_ops[0][0] == "writable":
+                b_ops = [["write", 1]] + b_ops if rnd.random() < 0.3 else b_ops
+            ready = [{"op": "peer", "k": "r", "n": 3}]
+            pre = []
+        steps = [{"op": "adapt", "e": 1}] + pre + [{"op": "spawn", "t": "A"}] + nd(1, 2)
+        steps += [{"op": "abandon", "t": "A", "if_parked": 1}] + nd(0, 2) + [{"op": "spawn", "t": "B"}] + nd(1, 2)
+        if rnd.random() < 0.25:
+            steps += [{"op": "abandon", "t": "B", "if_parked": 1}] + nd(0, 1)
+        steps += ready + nd(2, 3) + [{"op": "peer", "k": "r", "n": 3}, {"op": "peer", "k": "w", "n": 1}] + nd(2, 3)
+        steps += [{"op": "peer", "k": "r", "n": 3}] + nd(1, 2) + [{"op": rnd.choice(("drop", "into_inner")), "e": 1, "if_idle": 1}]
+        out.append({"id": "%s_%d" % (tag, i), "topo": "handoff", "join": 0, "seed": rnd.randint(1, 1 << 30),
+                    "nb0": [rnd.randint(0, 1) for _ in range(3)], "tasks": {"A": {"ad": 1, "ops": a_ops}, "B": {"ad": 1, "ops": b_ops}},
+                    "streams": [[rnd.randint(0, 1) for _ in range(8)] for _ in range(2)], "steps": steps})
     return out
 
 
@@ -265,6 +304,20 @@ CURATED = [
      "steps": [{"op": "adapt", "e": 1}, {"op": "spawn", "t": "S"}, D, {"op": "adapt2", "e": 1}, {"op": "peer", "k": "w", "n": 1}, D, D,
                {"op": "adapt2", "e": 1}, {"op": "peer", "k": "w", "n": 1}, D, D, {"op": "peer", "k": "r", "n": 1}, {"op": "adapt2", "e": 1},
                {"op": "into_inner", "e": 1}, {"op": "adapt", "e": 1}, {"op": "adapt2", "e": 1}, {"op": "drop", "e": 1}]},
+    # the waker of a direction is REPLACED: a wait is abandoned (future dropped), another task then waits for the same direction
+    {"id": "cur_handoff_read", "topo": "handoff", "join": 0, "nb0": [0, 0, 0],
+     "tasks": _t("handoff", {"A": [["readable", 0]], "B": [["readable", 0], ["read", 1]]}), "streams": [[1], []],
+     "steps": [{"op": "adapt", "e": 1}, {"op": "spawn", "t": "A"}, D, {"op": "abandon", "t": "A"}, D, {"op": "spawn", "t": "B"}, D,
+               {"op": "peer", "k": "w", "n": 1}, D, D, {"op": "drop", "e": 1, "if_idle": 1}]},
+    {"id": "cur_handoff_write", "topo": "handoff", "join": 0, "nb0": [1, 0, 0],
+     "tasks": _t("handoff", {"A": [["write", 3], ["write", 1]], "B": [["write", 1], ["writable", 0]]}), "streams": [[], [0, 1, 1, 0]],
+     "steps": [{"op": "adapt", "e": 1}, {"op": "spawn", "t": "A"}, D, {"op": "abandon", "t": "A"}, {"op": "spawn", "t": "B"}, D,
+               {"op": "peer", "k": "r", "n": 3}, D, D, {"op": "peer", "k": "r", "n": 3}, D, D, {"op": "into_inner", "e": 1, "if_idle": 1}]},
+    # the same task waits again for the direction it abandoned (same task, a new waker object)
+    {"id": "cur_abandon_again", "topo": "solo", "join": 0, "nb0": [0, 0, 0],
+     "tasks": _t("solo", {"S": [["read", 2], ["writable", 0], ["readable", 0], ["read", 1]]}), "streams": [[0, 1], []],
+     "steps": [{"op": "adapt", "e": 1}, {"op": "spawn", "t": "S"}, D, {"op": "abandon", "t": "S"}, D, D, {"op": "peer", "k": "w", "n": 2}, D, D,
+               {"op": "drop", "e": 1, "if_idle": 1}]},
     # two futures pending on ONE adapter: before 0061559 the first two hung and the third span (one waker slot, one interest)
     {"id": "cur_shared_join", "topo": "join", "join": 1, "nb0": [0, 0, 0],
      "tasks": _t("join", {"R": [["read", 1]], "W": [["write", 3], ["write", 1]]}), "streams": [[1], [0, 1, 1]],
@@ -340,17 +393,17 @@ def live_runs(work, res):
 def model_runs(tier, work, res):
     """the exhaustive configurations, side by side"""
     quick = tier == "quick"
-    jobs = [("asyncio_q_split", 4, 150), ("asyncio_q_join", 4, 150), ("asyncio_q_b3", 4, 150), ("asyncio_q", 3, 150),
+    jobs = [("asyncio_q_split", 4, 150), ("asyncio_q_join", 4, 150), ("asyncio_q_b3", 4, 150), ("asyncio_q_handoff", 3, 150), ("asyncio_q", 3, 150),
             ("asyncio_q_life", 3, 150), ("asyncio_q_two", 3, 150)]
     if not quick:
-        jobs = [("asyncio_t_b3", 6, 700), ("asyncio_t_life", 6, 700), ("asyncio_t_join", 6, 700), ("asyncio_t_split", 6, 700), ("asyncio_t", 6, 700),
+        jobs = [("asyncio_t_b3", 6, 700), ("asyncio_t_handoff", 6, 700), ("asyncio_t_life", 6, 700), ("asyncio_t_join", 6, 700), ("asyncio_t_split", 6, 700), ("asyncio_t", 6, 700),
                 ("asyncio_t_b3n", 4, 700), ("asyncio_t_two", 4, 700)] + [(c, 2, 300) for c, _, _ in jobs]
 
     def one(c, w, t):
         # several JVMs side by side: bound the heap of each (the default is a quarter of the machine's memory)
         return check.tlc_model("MCAsyncIo", "mc/%s.cfg" % c, work, workers=w, timeout=t,
                                env={"JAVA_TOOL_OPTIONS": "-Xss512m -Xmx%dg" % (5 if c.startswith("asyncio_t") else 2)})
-    with concurrent.futures.ThreadPoolExecutor(max_workers=6 if quick else 4) as ex:
+    with concurrent.futures.ThreadPoolExecutor(max_workers=7 if quick else 4) as ex:
         futs = [(c, ex.submit(one, c, w, t)) for c, w, t in jobs]
         results = [(c, f.result()) for c, f in futs]
     for c, r in results:
@@ -539,7 +592,7 @@ def engine(prop, tier, seed, work):
     res = check.Result()
     quick = tier == "quick"
 
-    with concurrent.futures.ThreadPoolExecutor(max_workers=8) as ex:
+    with concurrent.futures.ThreadPoolExecutor(max_workers=10) as ex:
         # 1. exhaustive model checking of the bounded configurations (in the background of everything else)
         rm = check.Result()
         fm = ex.submit(model_runs, tier, work, rm)
@@ -555,6 +608,7 @@ def engine(prop, tier, seed, work):
         else:
             sub("all_solo", model_scenarios, "asyncio_scn_t", "solo", work, "all_solo")
             sub("all_two", model_scenarios, "asyncio_scn_two", "two", work, "all_two")
+            sub("all_handoff", model_scenarios, "asyncio_scn_handoff", "handoff", work, "all_handoff")
         nsim = 300 if quick else 3000
         for topo in TOPOS:
             rs["sim_" + topo] = check.Result()
@@ -571,6 +625,7 @@ def engine(prop, tier, seed, work):
             by_topo[scns[0]["topo"]] += scns
         for topo in TOPOS:
             by_topo[topo] += random_scenarios(seed, nrnd, topo, "rnd%d_%s" % (seed, topo))
+        by_topo["handoff"] += handoff_scenarios(seed, nrnd, "ho%d" % seed)
 
         # 3. replay on the real crate, validate the traces
         counts = validate_all([(t, s) for t, s in by_topo.items()], work, res)
@@ -719,6 +774,49 @@ def _st_live(cfg, want):
     return run
 
 
+def _st_handoff_stale(work=None):
+    """corrupt the trace of cur_handoff_read: the readiness event woke the stale waker "A" and the parked task B never ran again"""
+    own, work = _own(work, "handoff")
+    try:
+        scns = [dict(s, id="st_" + s["id"]) for s in CURATED if s["id"] == "cur_handoff_read"]
+        _, tr, _ = run_driver(scns, work, "st_handoff")
+        clean = check.Result()
+        validate(scns, work, "st_handoff", clean, trace_override=tr)
+        assert not clean.viol, "the uncorrupted trace is already flagged: %s" % clean.viol
+        evs = [json.loads(x) for x in open(tr).read().splitlines()]
+        out, cut = [], False
+        for ev in evs:
+            if cut:
+                if ev["e"] in ("dispd", "end"):
+                    _set_ts(ev, "pending")
+                    ev["ts"] = [[t, "pending" if t == "B" else st] for t, st in ev["ts"]]
+                    if ev["e"] == "dispd":
+                        ev["auto"] = 1
+                    out.append(ev)
+                continue
+            if ev["e"] == "io" and ev["woke"] == ["B"]:
+                ev["woke"] = ["A"]
+                cut = True
+            out.append(ev)
+        assert cut, "no readiness event that wakes B"
+        bad = os.path.join(work, "st_handoff_bad.ndjson")
+        open(bad, "w").write("\n".join(json.dumps(e, separators=(",", ":")) for e in out) + "\n")
+        res = check.Result()
+        validate(scns, work, "st_handoff", res, trace_override=bad, all_viol=True)
+        got = set(c for v in res.viol for c in v["clauses"])
+        for v in res.viol:
+            try:
+                os.remove(v["replay"])
+            except OSError:
+                pass
+        want = {"Mismatch_wake", "task_not_woken_on_event", "task_stuck", "task_never_woken"}
+        assert want <= got, "expected %s, got %s" % (sorted(want), sorted(got))
+        return True
+    finally:
+        if own:
+            shutil.rmtree(work, ignore_errors=True)
+
+
 def _st_shared_pass(work=None):
     """two futures pending on ONE adapter: the curated scenarios that hung / span before 0061559 run clean and every task ends"""
     own, work = _own(work, "shared")
@@ -796,12 +894,15 @@ SELFTEST = [
      "-> failed_adapt_disturbed_live_adapter + adapter_not_registered",
      _st_trace("adapt2", lambda e, b: e["e"] == "adapt2" and e["r"] == "err", lambda e: e.update(ep=[[0, 0, 0, 0, 0], e["ep"][1], e["ep"][2]]),
                {"failed_adapt_disturbed_live_adapter", "adapter_not_registered"})),
+    ("C17 trace: after an abandoned wait of task A the event wakes A's stale waker instead of B's (the waker_not_replaced symptom) "
+     "-> Mismatch_wake + task_not_woken_on_event + task_stuck + task_never_woken",
+     _st_handoff_stale),
     ("C17 real crate: two futures pending on ONE adapter (split / join: the scenarios that hung or span before 0061559) run clean, every task ends",
      _st_shared_pass),
 ] + [("C17 model: variant cfg %s -> TLC reports %s violated" % (c, " or ".join(_tup(w))), _st_cfg(c, w)) for c, w in VARIANT_CFGS.items()] \
   + [("C17 model (temporal): %s -> %s" % (c, "holds" if w is None else w + " violated (busy loop)"), _st_live(c, w))
      for c, w in LIVE_CFGS.items()] \
-  + [("C17 model: %s (two futures on one adapter, code as it is) -> no invariant violated" % c, _st_cfg(c, None)) for c in ("asyncio_q_split", "asyncio_q_join")]
+  + [("C17 model: %s (code as it is) -> no invariant violated" % c, _st_cfg(c, None)) for c in ("asyncio_q_split", "asyncio_q_join", "asyncio_q_handoff")]
 
 
 if __name__ == "__main__":
